@@ -7,6 +7,7 @@ import Mathlib.Data.Rat.Defs
 import Mathlib.Algebra.Order.Field.Rat
 import Mathlib.Data.String.Basic
 import AtsimModel.Lemmas.KernelQ
+import AtsimModel.Lemmas.TokSem
 /-!
 # C03 — setfl (eam/alloy): element blocks, grids, r*phi blocks, metadata
 
@@ -232,4 +233,5 @@ theorem C03_kernel_samples (i : Nat) (step v r : Rat) :
     kernel_close
   · kernel_unfold [k_setfl_pair_scale]
     kernel_close
+
 end Atsim.C03
